@@ -420,6 +420,13 @@ def r14(ctx):
             for a in Slicer(ctx.w).atoms(ps, ps.term(sbb)["d"]):
                 if a.startswith("call:tokio::io::ReadBuf::") or a.startswith("arg:2:"):
                     bad.add(a)
+    # `(!avail.is_empty()).then_some(avail)`: the decision is the receiver of then_some / then
+    for bb, t in ps.calls(re.compile(r"^bool::(then_some|then)$")):
+        if t["d"]["l"] == 0 or any(op_place(s["r"].get("o")) and op_place(s["r"]["o"])["l"] == t["d"]["l"] for b2, i, s in ps.all_stmts() if i != "term" and s["p"]["l"] == 0 and s["r"]["k"] == "use"):
+            rets.append(bb)
+            for a in Slicer(ctx.w).atoms(ps, t["args"][0]):
+                if a.startswith("call:tokio::io::ReadBuf::") or a.startswith("arg:2:"):
+                    bad.add(a)
     ctx.inst(R, "put_slice:rest-decided-by-the-bytes", bool(rets) and not bad, ps.span, "the rest is stashed whenever bytes remain after the copy" if rets and not bad else
              (f"ReadHalf::put_slice decides whether something is left from the caller's buffer ({sorted(bad)}) instead of from the bytes that remain after the copy: "
               "on a partly filled ReadBuf the tail of a segment is silently dropped" if bad else "put_slice no longer returns Option<rest>: re-derive"))
